@@ -438,4 +438,232 @@ theorem time_RT (d : Dialect) (p : FP) (bs : Bytes) (v : AVal) (rest : Bytes)
         · exact wrapAs_tag_irrelevant p false _ _ encT (fun hh => hne (hcls.mpr hh))
         · rw [heq]; rfl
 
+/-! ## structs and slices -/
+
+/-- `stripTagAndLength` applied to the RawContent of a struct that has no explicit tag gives back the content -/
+theorem strip_consumed (d d' : Dialect) (hd' : d'.b128min = true) (t : ATy) (p : FP) (bs : Bytes) (he : p.explicit = false)
+    (tl : TL) (utag : Nat) (inner rest consumed : Bytes) (outer : Option (Nat × Nat))
+    (hh : header d' t p bs = .ok (.body tl utag inner rest consumed outer)) :
+    stripTagAndLength d consumed = inner ∧ consumed ≠ [] := by
+  obtain ⟨hsp, hdr', hc, hl⟩ := header_consumed d' t p bs _ _ _ _ _ _ hh
+  unfold header at hh
+  cases h0 : parseTagLen d' bs with
+  | error e => rw [h0] at hh; cases hh
+  | ok x =>
+    obtain ⟨tl0, r1⟩ := x
+    rw [h0] at hh
+    simp only [he, Bool.false_eq_true, if_false] at hh
+    obtain ⟨_, rfl, rfl, rfl, hle, _, _, _⟩ := headerBody_inner_length _ _ _ _ _ _ _ _ _ _ _ _ hh
+    obtain ⟨hdr, hbs, hl2, hall⟩ := parseTagLen_cancel d' bs tl r1 h0
+    have hcons : consumed = hdr ++ List.take tl.len r1 := by
+      have : consumed ++ List.drop tl.len r1 = (hdr ++ List.take tl.len r1) ++ List.drop tl.len r1 := by
+        rw [← hsp, List.append_assoc, List.take_append_drop]; exact hbs
+      exact List.append_cancel_right this
+    have hne : consumed ≠ [] := by
+      rw [hcons]; cases hdr with
+      | nil => simp at hl2
+      | cons x xs => simp
+    refine ⟨?_, hne⟩
+    have hp := hall d (List.take tl.len r1) (fun _ => hd')
+    rw [← hcons] at hp
+    unfold stripTagAndLength
+    cases hcc : consumed with
+    | nil => exact absurd hcc hne
+    | cons c cs =>
+      simp only []
+      rw [← hcc, hp]
+
+/-- the two passes of `parseSequenceOf` tile the content: given the round trip for the element type, the encodings of the
+decoded elements concatenate to exactly the content octets -/
+theorem elems_tiling (d : Dialect) (e : ATy) (he : e.isAny = false)
+    (hE : ∀ bs v rest, parseField d .canon e {} bs = .ok (v, rest) → RT d e {} bs v rest) :
+    ∀ (f n : Nat) (bs : Bytes) (vs : List AVal),
+      countElems (d.forMode .canon) (universalType e) f bs = .ok n →
+      parseElemsWith (parseField d .canon e {}) n bs = .ok vs →
+      ∃ encs, marshalElemsWith (marshalField d e {}) vs = .ok encs ∧ concatAll encs = bs
+  | 0, _, _, _, h, _ => by simp [countElems] at h
+  | f+1, n, [], vs, h, h2 => by
+    simp [countElems] at h
+    subst h
+    simp [parseElemsWith] at h2
+    subst h2
+    exact ⟨[], rfl, rfl⟩
+  | f+1, n, b :: bs, vs, h, h2 => by
+    simp only [countElems] at h
+    cases h0 : parseTagLen (d.forMode .canon) (b :: bs) with
+    | error err => rw [h0] at h; cases h
+    | ok x =>
+      obtain ⟨tl, r⟩ := x
+      rw [h0] at h
+      simp only [] at h
+      have key : ∃ n', ¬ tl.len > r.length ∧ countElems (d.forMode .canon) (universalType e) f (r.drop tl.len) = .ok n' ∧ n = n' + 1 := by
+        repeat' split at h
+        all_goals first
+          | (cases h; done)
+          | (cases h; exact ⟨_, by assumption, by assumption, rfl⟩)
+      obtain ⟨n', hlen, h1, rfl⟩ := key
+      simp only [parseElemsWith] at h2
+      cases h3 : parseField d .canon e {} (b :: bs) with
+      | error err => rw [h3] at h2; cases h2
+      | ok y =>
+        obtain ⟨v, rest1⟩ := y
+        rw [h3] at h2
+        simp only [] at h2
+        cases h4 : parseElemsWith (parseField d .canon e {}) n' rest1 with
+        | error err => rw [h4] at h2; cases h2
+        | ok vs' =>
+          rw [h4] at h2
+          cases h2
+          -- the element parsed is the element counted
+          obtain ⟨el, hr, _⟩ := plainField_readTLV d .canon e {} _ _ _ ⟨rfl, rfl, he⟩ h3
+          have hrest : rest1 = r.drop tl.len := by
+            unfold readTLV at hr
+            rw [h0] at hr
+            simp only [] at hr
+            rw [if_neg hlen] at hr
+            cases hr; rfl
+          subst hrest
+          obtain ⟨encs, hm, hc⟩ := elems_tiling d e he hE f n' _ vs' h1 h4
+          obtain ⟨enc, hme, hsp⟩ := hE _ _ _ h3
+          refine ⟨enc :: encs, ?_, ?_⟩
+          · simp only [marshalElemsWith, hme, hm]
+          · simp only [concatAll, hc]; exact hsp.symm
+
+theorem utagOf_struct (raw : Bool) (fs : AFields) (p : FP) (tl : TL) :
+    utagOf (.struct raw fs) p tl = (if p.set then tagSet else tagSequence) := by
+  simp [utagOf, universalType, tagSequence, tagPrintableString, tagUTCTime]
+
+theorem utagOf_seqOf (s : Bool) (e : ATy) (p : FP) (tl : TL) :
+    utagOf (.seqOf s e) p tl = (if p.set then tagSet else (if s then tagSet else tagSequence)) := by
+  cases s <;> simp [utagOf, universalType, tagSequence, tagSet, tagPrintableString, tagUTCTime]
+
+mutual
+/-- **marshal_parse.** Whatever `parseField` accepts in `canon` mode, `marshalField` writes back octet for octet. -/
+theorem marshal_parse_field (d : Dialect) : ∀ (t : ATy) (p : FP) (bs : Bytes) (v : AVal) (rest : Bytes),
+    parseField d .canon t p bs = .ok (v, rest) → RT d t p bs v rest
+  | .struct raw fs, p, bs, v, rest, h => by
+    simp only [parseField] at h
+    rcases canon_shell d (.struct raw fs) p bs _ v rest h with ⟨_, w, rfl, hom, rfl⟩ | ⟨tl, utag, inner, consumed, outer, hh, hk, hcp, hco, hom⟩
+    · exact ⟨[], absent_marshal d _ p w rfl hom, rfl⟩
+    · obtain ⟨hcw, hsp, hut, _⟩ := consumed_wrapAs _ (canon_dialect d) (.struct raw fs) p bs (by intro h; cases h) _ _ _ _ _ _ hh hcp hco
+      cases hf : parseFields d (Mode.canon.under raw) fs inner with
+      | error e => rw [hf] at hk; cases hk
+      | ok x =>
+        obtain ⟨vs, left⟩ := x
+        rw [hf] at hk
+        simp only [] at hk
+        by_cases hc : (Mode.canon.isCanon && !raw && !left.isEmpty) = true
+        · rw [if_pos hc] at hk; cases hk
+        · rw [if_neg hc] at hk
+          cases hk
+          have hp : p.timeType = 0 ∧ p.stringType = 0 := by
+            cases raw <;> simp [canonParams] at hcp <;> simp [hcp]
+          have hgoal : wrapAs p true (if p.set = true then tagSet else tagSequence) inner = consumed := by
+            rw [hcw, hut, utagOf_struct]; rfl
+          refine ⟨consumed, ?_, hsp⟩
+          simp only [marshalField, marshalShell]
+          rw [if_neg (by rw [hom]; simp)]
+          cases raw with
+          | false =>
+            have hleft : left = [] := by
+              simp only [Mode.isCanon, Bool.not_false, Bool.true_and, Bool.not_eq_true', Bool.not_eq_false'] at hc
+              simpa using hc
+            subst hleft
+            obtain ⟨enc, hm, hin⟩ := marshal_parse_fields d fs inner vs [] hf
+            simp only [List.append_nil] at hin
+            subst hin
+            simp [AVal.unwrap, universalType, nilBigInt, hp.1, hp.2, hm, tagSequence] at hgoal ⊢
+            exact hgoal
+          | true =>
+            have hex : p.explicit = false := by
+              simp [canonParams] at hcp; simp [hcp]
+            obtain ⟨hstrip, hne⟩ := strip_consumed d _ (canon_dialect d) _ p bs hex _ _ _ _ _ _ hh
+            have hne' : consumed.isEmpty = false := by
+              cases consumed with
+              | nil => exact absurd rfl hne
+              | cons c cs => rfl
+            simp [AVal.unwrap, universalType, nilBigInt, hp.1, hp.2, hne', hstrip, tagSequence] at hgoal ⊢
+            exact hgoal
+  | .seqOf s e, p, bs, v, rest, h => by
+    simp only [parseField] at h
+    rcases canon_shell d (.seqOf s e) p bs _ v rest h with ⟨_, w, rfl, hom, rfl⟩ | ⟨tl, utag, inner, consumed, outer, hh, hk, hcp, hco, hom⟩
+    · exact ⟨[], absent_marshal d _ p w rfl hom, rfl⟩
+    · obtain ⟨hcw, hsp, hut, _⟩ := consumed_wrapAs _ (canon_dialect d) (.seqOf s e) p bs (by intro h; cases h) _ _ _ _ _ _ hh hcp hco
+      by_cases hsort : (Mode.canon.isCanon && d.sortSetOf && (p.set || s)) = true
+      · rw [if_pos hsort] at hk; cases hk
+      · rw [if_neg hsort] at hk
+        by_cases hany : e.isAny = true
+        · rw [if_pos hany] at hk; cases hk
+        · rw [if_neg hany] at hk
+          cases hn : countElems (d.forMode .canon) (universalType e) (inner.length + 1) inner with
+          | error err => rw [hn] at hk; cases hk
+          | ok n =>
+            rw [hn] at hk
+            simp only [] at hk
+            cases hvs : parseElemsWith (parseField d .canon e {}) n inner with
+            | error err => rw [hvs] at hk; cases hk
+            | ok vs =>
+              rw [hvs] at hk
+              cases hk
+              obtain ⟨encs, hm, hcat⟩ := elems_tiling d e (by simpa using hany)
+                (fun bs v rest h => marshal_parse_field d e {} bs v rest h) _ n inner vs hn hvs
+              have hp : p.timeType = 0 ∧ p.stringType = 0 ∧ (p.set = true → s = false) := by
+                cases s <;> simp [canonParams] at hcp <;> simp [hcp]
+              have hsort' : (d.sortSetOf && (p.set || s)) = false := by
+                simpa [Mode.isCanon] using hsort
+              have hgoal : wrapAs p true (if p.set = true then tagSet else (if s = true then tagSet else tagSequence)) inner = consumed := by
+                rw [hcw, hut, utagOf_seqOf]; rfl
+              refine ⟨consumed, ?_, hsp⟩
+              simp only [marshalField, marshalShell]
+              rw [if_neg (by rw [hom]; simp)]
+              cases hset : p.set with
+              | false =>
+                cases s <;> simp [AVal.unwrap, universalType, nilBigInt, hp.1, hp.2.1, hm, hcat, hset, tagSequence, tagSet] at hsort' hgoal ⊢ <;>
+                  simp [hsort', hcat, hgoal]
+              | true =>
+                have := hp.2.2 hset
+                subst this
+                simp [AVal.unwrap, universalType, nilBigInt, hp.1, hp.2.1, hm, hset, tagSequence, tagSet] at hsort' hgoal ⊢
+                simp [hsort', hcat, hgoal]
+  | .bool, p, bs, v, rest, h => simple_leaf_RT d _ p bs v rest rfl h
+  | .int32, p, bs, v, rest, h => simple_leaf_RT d _ p bs v rest rfl h
+  | .int64, p, bs, v, rest, h => simple_leaf_RT d _ p bs v rest rfl h
+  | .bigInt, p, bs, v, rest, h => simple_leaf_RT d _ p bs v rest rfl h
+  | .enum, p, bs, v, rest, h => simple_leaf_RT d _ p bs v rest rfl h
+  | .bitString, p, bs, v, rest, h => simple_leaf_RT d _ p bs v rest rfl h
+  | .octets, p, bs, v, rest, h => simple_leaf_RT d _ p bs v rest rfl h
+  | .oid, p, bs, v, rest, h => simple_leaf_RT d _ p bs v rest rfl h
+  | .flag, p, bs, v, rest, h => simple_leaf_RT d _ p bs v rest rfl h
+  | .str, p, bs, v, rest, h => str_RT d p bs v rest h
+  | .time, p, bs, v, rest, h => time_RT d p bs v rest h
+  | .rawValue, p, bs, v, rest, h => rawValue_RT d p bs v rest h
+  | .any, p, bs, v, rest, h => by
+    -- `Canon` has no `interface{}` targets
+    simp only [parseField] at h
+    rcases canon_shell d .any p bs _ v rest h with ⟨ha, _⟩ | ⟨tl, utag, inner, consumed, outer, hh, _⟩
+    · cases ha
+    · exfalso
+      unfold fieldShell at h
+      by_cases hb : bs = []
+      · subst hb
+        unfold header at hh
+        simp [parseTagLen, parseTag] at hh
+      · rw [if_neg hb] at h
+        simp [ATy.isAny, Mode.isCanon] at h
+/-- the field loop -/
+theorem marshal_parse_fields (d : Dialect) : ∀ (fs : AFields) (bs : Bytes) (vs : List AVal) (left : Bytes),
+    parseFields d .canon fs bs = .ok (vs, left) → ∃ enc, marshalFields d fs vs = .ok enc ∧ bs = enc ++ left
+  | .nil, bs, vs, left, h => by
+    simp only [parseFields, Except.ok.injEq, Prod.mk.injEq] at h
+    obtain ⟨rfl, rfl⟩ := h
+    exact ⟨[], rfl, rfl⟩
+  | .cons p t rest, bs, ws, left, h => by
+    obtain ⟨v, bs', vs, h1, h2, rfl⟩ := parseFields_cons d .canon _ _ _ _ _ _ h
+    obtain ⟨enc1, hm1, hs1⟩ := marshal_parse_field d t p bs v bs' h1
+    obtain ⟨enc2, hm2, hs2⟩ := marshal_parse_fields d rest bs' vs left h2
+    refine ⟨enc1 ++ enc2, ?_, ?_⟩
+    · simp only [marshalFields, hm1, hm2]
+    · rw [hs1, hs2, List.append_assoc]
+end
+
 end CTV.Der
